@@ -259,7 +259,7 @@ def read_lines(p):
         return [l.rstrip("\n") for l in f]
 
 
-def compare_files(ops_path, impl_path, res_path, model_path, keys):
+def compare_files(ops_path, impl_path, res_path, model_path, keys, spec_tags=None):
     """returns (n_cases, first_failure or None, per-case model outputs)"""
     ops, impl, res, model = map(read_lines, (ops_path, impl_path, res_path, model_path))
     failures = []
@@ -277,7 +277,9 @@ def compare_files(ops_path, impl_path, res_path, model_path, keys):
         # letter (theorem only `_partial` there); if the implementation agrees with the model on such
         # a line, the implementation violates the property on this input
         if "~specviol=" in model[i] and case_idx[i] not in tainted and not line_diff(impl[i], model[i], keys):
-            specviol.append((case_idx[i], i, ["#specviol:" + parse_out(model[i]).get("~specviol", "?")]))
+            tag = parse_out(model[i]).get("~specviol", "?")
+            if spec_tags is None or tag in spec_tags:  # a stream shared by several properties: each judges its own tags
+                specviol.append((case_idx[i], i, ["#specviol:" + tag]))
     for i in range(n):
         if case_idx[i] in tainted:
             continue  # the wall-clock second ticked during a clock-reading op: case not judged
@@ -308,7 +310,10 @@ def rerun_case(stream, header, op_lines, keys, tag, want=None):
             f.write(l + "\n")
     rc, txt, out, res = run_impl(stream, p, "s", timeout=600)
     if rc != 0:
-        return True, ["#crash rc=%d %s" % (rc, txt[-300:].replace("\n", " | "))], [], []
+        # while shrinking towards a particular failure, a candidate that merely crashes the harness (e.g. an op
+        # that lost the op which initialises its subject) is not the same failure
+        same_failure = want is None or want == ["#crash"]
+        return same_failure, ["#crash rc=%d %s" % (rc, txt[-300:].replace("\n", " | "))], [], []
     mp = p + ".model"
     run_model(res, mp)
     impl, model, resolved = read_lines(out), read_lines(mp), read_lines(res)
@@ -416,7 +421,7 @@ def run_stream(prop_id, cfg, scfg, seed, tier, log, stats):
         if mrc != 0:
             violations.append({"kind": "no-input", "why": f"Lean driver failed on stream {stream}: {merr[-500:]}"})
             continue
-        ops, impl, res, model, failures = compare_files(ops_path, impl_path, res_path, model_path, keys)
+        ops, impl, res, model, failures = compare_files(ops_path, impl_path, res_path, model_path, keys, scfg.get("spec_tags"))
         # statistics from the MODEL's outputs
         cases = split_cases(model)
         op_cases = split_cases(ops)
